@@ -434,7 +434,7 @@ func (e *Evaluator) evalFunccall(funcCall *parser.FuncCall) (value, error) {
 	builtin, ok := e.builtins.Funcs[funcCall.Name]
 	if ok {
 		val, err := builtin.Func(e.scope, args)
-		if funcCall.Name == "test" {
+		if funcCall.Name == "test" && (err == nil || errors.Is(err, ErrTest)) { // not for calls with bad arguments
 			e.TestInfo.total++
 			if errors.Is(err, ErrTest) {
 				token := funcCall.Arguments[0]
